@@ -290,3 +290,7 @@ fn c16_hmac_sha1_wrapper() {
     let want = mac.finalize().into_bytes();
     assert!(got[..] == want[..]);
 }
+
+// (decode(encode(m)) for a Binding success response was tried again with the assert-then-literal trick: it still
+// does not finish in 900 s — the encode side with a SocketAddr-carrying attribute list; the composition is covered
+// by c16_xor_address_v4_layout_and_inverse + c16_encode_plain_length + c16_decode_xor_mapped_v4_literal.)
